@@ -25,6 +25,24 @@ type c13StaticInner struct {
 	Tags   map[string]struct{} `dials:"tags" json:"jsonTags"`
 }
 
+// Embedded (anonymous) members of the static type. With their dials tags
+// they are named members of the document. C13Quota and *C13Pool carry the tag
+// a Go programmer would write (the type's name in another case), C13Backoff a
+// tag spelled differently from its name.
+type C13Quota struct {
+	MaxConns int           `dials:"max_conns"`
+	Burst    time.Duration `dials:"burst"`
+}
+
+type C13Pool struct {
+	Size  int32    `dials:"size"`
+	Names []string `dials:"names"`
+}
+
+type C13Backoff struct {
+	Factor float64 `dials:"factor"`
+}
+
 type c13Static struct {
 	ListenAddr string              `dials:"listen_addr"`
 	MaxConn    int32               `dials:"max_conn" json:"maxConn"`
@@ -42,6 +60,9 @@ type c13Static struct {
 	Inner      c13StaticInner      `dials:"inner"`
 	Opt        *c13StaticInner     `dials:"opt" cue:"inert"`
 	Items      []c13StaticInner    `dials:"items"`
+	C13Quota   `dials:"c13quota"`
+	*C13Pool   `dials:"c13Pool"`
+	C13Backoff `dials:"back_off"`
 }
 
 func (c *c13Run) configStatic(fm c13Fmt, doc string) (*c13Static, *dials.Dials[c13Static], error) {
@@ -97,7 +118,8 @@ var c13FixedDocs = [4]string{
  "started":"2021-03-04T05:06:07.5+01:00","peer":"192.168.1.7","pair":"left|right","hosts":["a.example","b.example"],
  "ports":[80,443],"limits":{"rps":1000,"burst":-5},"seen":["x","y","x"],
  "inner":{"depth":3,"wait":2500000000,"labels":{"env":"prod"},"jsonTags":["t1"]},"opt":{"depth":-1},
- "items":[{"depth":1,"wait":"1s"},{"labels":{"k":"v"}}]}`,
+ "items":[{"depth":1,"wait":"1s"},{"labels":{"k":"v"}}],
+ "c13quota":{"max_conns":64,"burst":"250ms"},"c13Pool":{"size":8,"names":["p1","p2"]},"back_off":{"factor":1.5}}`,
 	`listen_addr: "0.0.0.0:8080"
 max_conn: 250
 ratio: 0.75
@@ -128,6 +150,14 @@ items:
     wait: 1s
   - labels:
       k: v
+c13quota:
+  max_conns: 64
+  burst: 250ms
+c13Pool:
+  size: 8
+  names: [p1, p2]
+back_off:
+  factor: 1.5
 `,
 	`listen_addr = "0.0.0.0:8080"
 max_conn = 250
@@ -161,6 +191,17 @@ wait = "1s"
 [[items]]
 [items.labels]
 k = "v"
+
+[c13quota]
+max_conns = 64
+burst = "250ms"
+
+[c13Pool]
+size = 8
+names = ["p1", "p2"]
+
+[back_off]
+factor = 1.5
 `,
 	`listen_addr: "0.0.0.0:8080"
 maxConn: 250
@@ -182,6 +223,9 @@ inner: {
 }
 opt: depth: -1
 items: [{depth: 1, wait: "1s"}, {labels: k: "v"}]
+c13quota: {max_conns: 64, burst: "250ms"}
+c13Pool: {size: 8, names: ["p1", "p2"]}
+back_off: factor: 1.5
 `,
 }
 
@@ -193,15 +237,18 @@ func c13FixedStatic(w *fw.Worker, idx int) {
 		Peer:    net.ParseIP("192.168.1.7"), Pair: C13Text{A: "left", B: "right"},
 		Hosts: []string{"a.example", "b.example"}, Ports: []uint16{80, 443},
 		Limits: map[string]int64{"rps": 1000, "burst": -5}, Seen: map[string]struct{}{"x": {}, "y": {}},
-		Ignored: 42,
-		Inner:   c13StaticInner{Depth: 3, Wait: 2500 * time.Millisecond, Labels: map[string]string{"env": "prod"}, Tags: map[string]struct{}{"t1": {}}},
-		Opt:     &c13StaticInner{Depth: -1},
-		Items:   []c13StaticInner{{Depth: 1, Wait: time.Second}, {Labels: map[string]string{"k": "v"}}},
+		Ignored:  42,
+		Inner:    c13StaticInner{Depth: 3, Wait: 2500 * time.Millisecond, Labels: map[string]string{"env": "prod"}, Tags: map[string]struct{}{"t1": {}}},
+		Opt:      &c13StaticInner{Depth: -1},
+		Items:    []c13StaticInner{{Depth: 1, Wait: time.Second}, {Labels: map[string]string{"k": "v"}}},
+		C13Quota: C13Quota{MaxConns: 64, Burst: 250 * time.Millisecond}, C13Pool: &C13Pool{Size: 8, Names: []string{"p1", "p2"}},
+		C13Backoff: C13Backoff{Factor: 1.5},
 	}
 	for fm := c13JSON; fm <= c13Cue; fm++ {
 		name := c13FmtNames[fm]
 		dflt := &c13Static{ListenAddr: ":80", MaxConn: 10, Ratio: 0.5, Timeout: 5 * time.Second, Hosts: []string{"default"},
-			Limits: map[string]int64{"rps": 1}, Ignored: 42, Inner: c13StaticInner{Depth: 9, Wait: time.Second, Labels: map[string]string{"a": "b"}}}
+			Limits: map[string]int64{"rps": 1}, Ignored: 42, Inner: c13StaticInner{Depth: 9, Wait: time.Second, Labels: map[string]string{"a": "b"}},
+			C13Quota: C13Quota{MaxConns: 1, Burst: time.Second}, C13Backoff: C13Backoff{Factor: 2}}
 		d, err := dials.Config(context.Background(), dflt, &static.StringSource{Data: c13FixedDocs[fm], Decoder: c13NewDecoder(fm, true)})
 		w.Count("fixed_corpus_documents", 1)
 		if err != nil {
